@@ -28,6 +28,8 @@ def shards(tier):
 
 def gates(c, tier):
     out = [f"no filter of kind {k}" for k in KINDS if c.get("kind:" + k, 0) == 0]
+    if c.get("deep-trees", 0) == 0:
+        out.append("no deep tree")
     for p in ("first:28", "last:28", "first:29", "last:29", "first:2a", "last:2a", "first:5c", "last:5c", "first:00", "last:00", "first:hi", "last:hi"):
         if c.get("pos:" + p, 0) == 0:
             out.append(f"special octet never at position {p}")
@@ -66,7 +68,10 @@ def check_one(f, as_bytearray=False):
     out = []
     obj = av.b_filter(av.fresh(f, as_bytearray))  # the tree owns its values: they die with it
     try:
-        s = str(obj)
+        with cpu_limit(20):
+            s = str(obj)
+    except CpuTimeout:
+        return [("str-cpu-timeout", f"str(filter) of a tree nested {depth(f)} deep did not return within 20 CPU-seconds")]
     except Exception as e:
         return [(f"str-exc:{norm_msg(e)}", f"str(filter) raised {type(e).__name__}: {e}")]
     try:
@@ -133,6 +138,17 @@ def check_one(f, as_bytearray=False):
 
 
 def run_shard(ctx: Ctx, acc: Acc):
+    # a few trees nested far deeper than the random part goes in the quick tier (text form and reparse are recursive)
+    for di, d in enumerate([18, 25, 40, 60, 120, 200]):
+        if di % ctx.nshards != ctx.shard:
+            continue
+        for k in range(3):
+            f = deep_tree(ctx.seed * 31 + k, d)
+            acc.case()
+            acc.count("deep-trees")
+            acc.nontrivial("deep", d, k)
+            for key, what in check_one(f):
+                acc.violation(key, what, {"deep": [ctx.seed * 31 + k, d]})
     n = ctx.scale(60_000, 1_500_000)
     maxd = 60 if ctx.thorough else 8
     for i in range(n):
@@ -161,7 +177,20 @@ def run_shard(ctx: Ctx, acc: Acc):
                 acc.violation(key, what + " [values held in bytearrays]", {"tree": f, "as_bytearray": True})
 
 
+def deep_tree(seed, d):
+    import random
+
+    r = random.Random(seed)
+    f = gf.g_text_filter(r, 0, dn_rule_rate=0)
+    for _ in range(d):
+        k = r.choice(["and", "or", "not"])
+        f = ("not", f) if k == "not" else (k, (f,) if r.random() < 0.6 else (f, ("present", "cn")))
+    return f
+
+
 def replay(w):
+    if w.get("deep"):
+        return check_one(deep_tree(*w["deep"]))
     if w.get("as_bytearray"):
         return check_one(to_tuple(w["tree"]), True)
     return check_one(to_tuple(w["tree"]))
